@@ -98,4 +98,37 @@ theorem Q_norm_M (q p : Vec 4 R) : ∀ M, Gen.Q_norm_M P q p = .ok M → Gen.Q_n
 theorem Q_add_M1 (q p r : Vec 4 R) : ∀ M, Gen.Q_add_M1 P q p r = .ok M → Gen.Q_add P q r = .ok M.1 ∧ Gen.Q_add P p r = .ok M.2 := by
   per_value Gen.Q_add_M1 Gen.Q_add
 
+/-! ### quaternion classes: powers, products (1×M, M×1, M×M), comparisons and the action on a vector, value by value -/
+theorem Q_pow2_M (q p : Vec 4 R) : ∀ M, Gen.Q_pow2_M P q p = .ok M → Gen.Q_pow_2 P q = .ok M.1 ∧ Gen.Q_pow_2 P p = .ok M.2 := by
+  per_value Gen.Q_pow2_M Gen.Q_pow_2
+theorem Q_pow3_M (q p : Vec 4 R) : ∀ M, Gen.Q_pow3_M P q p = .ok M → Gen.Q_pow_3 P q = .ok M.1 ∧ Gen.Q_pow_3 P p = .ok M.2 := by
+  per_value Gen.Q_pow3_M Gen.Q_pow_3
+theorem Q_mul_M1 (q p r : Vec 4 R) : ∀ M, Gen.Q_mul_M1 P q p r = .ok M → Gen.Q_mul P q r = .ok M.1 ∧ Gen.Q_mul P p r = .ok M.2 := by
+  per_value Gen.Q_mul_M1 Gen.Q_mul
+theorem Q_mul_1M (q p r : Vec 4 R) : ∀ M, Gen.Q_mul_1M P q p r = .ok M → Gen.Q_mul P q p = .ok M.1 ∧ Gen.Q_mul P q r = .ok M.2 := by
+  per_value Gen.Q_mul_1M Gen.Q_mul
+theorem Q_mul_MM (q p r s : Vec 4 R) : ∀ M, Gen.Q_mul_MM P q p r s = .ok M → Gen.Q_mul P q r = .ok M.1 ∧ Gen.Q_mul P p s = .ok M.2 := by
+  per_value Gen.Q_mul_MM Gen.Q_mul
+theorem Q_inner_M (q p r : Vec 4 R) : ∀ M, Gen.Q_inner_M P q p r = .ok M → Gen.Q_inner P q r = .ok M.1 ∧ Gen.Q_inner P p r = .ok M.2 := by
+  per_value Gen.Q_inner_M Gen.Q_inner
+
+/-- `!=` between a single and a multi-valued unit quaternion (either order) is the element-wise negation of `==` -/
+theorem UQ_ne_1M (q p r : Vec 4 R) : ∀ M, Gen.UQ_ne_1M P q p r = .ok M → Gen.UQ_eq_1M P q p r = .ok (!M.1, !M.2) := by
+  intro M h; unfold Gen.UQ_ne_1M at h; unfold Gen.UQ_eq_1M; (try simp only [] at h); (try simp only [])
+  split_ifs at h <;> cases h <;> (first | rfl | (simp only [*, if_true, if_false, not_true_eq_false, not_false_eq_true]; rfl) | (simp [*]; done))
+theorem UQ_ne_M1 (q p r : Vec 4 R) : ∀ M, Gen.UQ_ne_M1 P q p r = .ok M → Gen.UQ_eq_M1 P q p r = .ok (!M.1, !M.2) := by
+  intro M h; unfold Gen.UQ_ne_M1 at h; unfold Gen.UQ_eq_M1; (try simp only [] at h); (try simp only [])
+  split_ifs at h <;> cases h <;> (first | rfl | (simp only [*, if_true, if_false, not_true_eq_false, not_false_eq_true]; rfl) | (simp [*]; done))
+/-- `==` of a single against a multi-valued unit quaternion compares the single value with each element -/
+theorem UQ_eq_1M (q p r : Vec 4 R) : ∀ M, Gen.UQ_eq_1M P q p r = .ok M → Gen.UQ_eq P q p = .ok M.1 ∧ Gen.UQ_eq P q r = .ok M.2 := by
+  per_value Gen.UQ_eq_1M Gen.UQ_eq
+theorem UQ_eq_M1 (q p r : Vec 4 R) : ∀ M, Gen.UQ_eq_M1 P q p r = .ok M → Gen.UQ_eq P q r = .ok M.1 ∧ Gen.UQ_eq P p r = .ok M.2 := by
+  per_value Gen.UQ_eq_M1 Gen.UQ_eq
+/-- a multi-valued unit quaternion times a 3-vector: column j is value j applied to the vector -/
+theorem UQ_mul_vec_M (q p : Vec 4 R) (v : Vec 3 R) : ∀ M, Gen.UQ_mul_vec_M P q p v = .ok M →
+    ∃ a b, Gen.UQ_mul_vec P q v = .ok a ∧ Gen.UQ_mul_vec P p v = .ok b ∧ ∀ i, M i 0 = a i ∧ M i 1 = b i := by
+  intro M h; unfold Gen.UQ_mul_vec_M at h; unfold Gen.UQ_mul_vec; simp only [] at h ⊢; cases h
+  refine ⟨_, _, rfl, rfl, ?_⟩
+  intro i; fin_cases i <;> simp
+
 end SmVerif.Props.Multi
